@@ -141,7 +141,42 @@ def job_plan(res, cases):
         else:
             confirm(res, PID, HARNESS, 'h_plan_then_history', [('i32', pk), ('i32', pn), ('pi32', [k for k, n in hist] + [0]), ('pi32', [n for k, n in hist] + [0]), ('i32', len(hist)), ('pf64', xv), ('pf64', [0.0] * (2 * MAXN))], 'i32', 'plan', ORACLES, 'plan:stale', f'{label}: an early plan object returns a different result after other lengths were used')
 
-JOBFNS = {'hist': job_hist, 'plan': job_plan}
+def o_reject(spec, r, extra):
+    k0, n0, k1, n1 = spec[0][1], spec[1][1], spec[2][1], spec[3][1]; x = spec[4][1]; mod, so = load(HARNESS)
+    desc = f'{KN[k1]}[{n1}] after the rejected request {KN[k0]}[{n0}]'
+    if r['status'] != 'ok' or r['ret'] == H_THROW: return True, f"{desc}: {r['status']} / threw"
+    fr = native_call(so, 'h_history', spec_hist([(k1, n1)], x), 'i32'); w = n1 if k1 == 3 else 2 * n1
+    if fr['status'] != 'ok': return True, f'{desc}: fresh request failed'
+    bad = any(not same_bits(a, b) for a, b in zip(r['outs'][1][:w], fr['outs'][3][:w]))
+    return bad, f"{desc}: returns {r['outs'][1][:4]}.. but {fr['outs'][3][:4]}.. in a fresh thread"
+ORACLES['reject'] = o_reject
+def job_reject(res, cases):
+    """a request that ends in an exception (irfft of odd length) must leave nothing behind that changes a later accepted request: state at the throw point, then the second request, vs a fresh machine"""
+    _fresh.clear(); mod, so = load(HARNESS)
+    xs = [fsym(f'x{i}') for i in range(2 * MAXN)]; xv = [((i * 7919 + 13) % 1000) / 1000.0 - 0.5 for i in range(2 * MAXN)]
+    for (k0, n0, k1, n1) in cases:
+        label = f'{KN[k1]}[{n1}] after the rejected request {KN[k0]}[{n0}]'
+        m = Machine(mod, max_steps=200_000_000); threw = False
+        try: sym_call(m, 'h_history', spec_hist([(k0, n0)], xs), 'i32')
+        except Throw: threw = True
+        except UB as e: res.absorb(m); res.inc(f'{label}: UB in the rejected request: {str(e)[:100]}'); continue
+        if not threw: res.absorb(m); res.inc(f'{label}: the first request was not rejected'); continue
+        m.pending = []
+        try: r, outs, _ = sym_call(m, 'h_history', spec_hist([(k1, n1)], xs), 'i32'); st = 'ret'
+        except Throw: st = 'throw'
+        except UB as e: st = 'ub ' + str(e)[:100]
+        res.absorb(m); w = n1 if k1 == 3 else 2 * n1
+        ok = st == 'ret' and all(same_term(a, b) for a, b in zip(outs[3][:w], fresh_result(mod, k1, n1, xs)))
+        if not ok and st == 'ret':
+            low = Lower('REAL'); sol = z3.Solver(); sol.set('timeout', 60000)
+            sol.add(z3.Or([(low(a) if isF(a) else z3.RealVal(Fraction(a))) != (low(b) if isF(b) else z3.RealVal(Fraction(b))) for a, b in zip(outs[3][:w], fresh_result(mod, k1, n1, xs))]))
+            ok = timed_check(sol, res) == z3.unsat
+        else:
+            sol = z3.Solver(); sol.add(z3.Not(z3.BoolVal(bool(ok)))); timed_check(sol, res)
+        if ok: res.ob(True, 'UF', f'{label}: same terms as in a fresh thread')
+        else: confirm(res, PID, HARNESS, 'h_after_reject', [('i32', k0), ('i32', n0), ('i32', k1), ('i32', n1), ('pf64', xv), ('pf64', [0.0] * (2 * MAXN))], 'i32', 'reject', ORACLES, 'history:after-reject', f'{label}: {st}; result differs from the fresh one')
+
+JOBFNS = {'hist': job_hist, 'plan': job_plan, 'reject': job_reject}
 
 def selftest(st):
     xv = [((i * 7919 + 13) % 1000) / 1000.0 - 0.5 for i in range(2 * MAXN)]
@@ -158,6 +193,13 @@ def main(tier, seed):
     for _ in range(150 if q else 1500):
         ln = rnd.randint(4, 7 if q else 8); hs.append([(rnd.choice([0, 0, 1, 1, 2, 3]), rnd.choice(A + [3, 7, 14, 8])) for _ in range(ln)])
     hs = [[(k, n if not (k == 3 and n % 2) else n + 1) for k, n in h] for h in hs]
+    # eviction and re-creation: a length, then enough other lengths of the same cache to evict it (and its sub-plans), then the length again
+    for kind in (0, 1, 2, 3):
+        for a in ((9, 6, 15, 12) if q else (9, 6, 15, 12, 10, 5, 14)):
+            if kind == 3 and a % 2: continue
+            others = [n for n in (5, 6, 10, 12, 16, 14, 7) if n != a and not (kind == 3 and n % 2)]
+            for rot in range(2 if q else 4):
+                o = others[rot:] + others[:rot]; hs.append([(kind, a)] + [(kind, n) for n in o[:5]] + [(kind, a)])
     rnd.shuffle(hs)
     chunk = max(8, len(hs) // 48)
     for i in range(0, len(hs), chunk): jobs.append((f'histories {i}..', 'hist', dict(hists=hs[i:i + chunk]), 3000))
@@ -167,6 +209,8 @@ def main(tier, seed):
             cases.append((pk, pn, [(rnd.choice([0, 1, 2, 3]), rnd.choice([6, 10, 12, 14, 16, 9, 5, 3])) for _ in range(rnd.randint(4, 7))]))
     cases = [(pk, pn, [(k, n if not (k == 3 and n % 2) else n + 1) for k, n in h]) for pk, pn, h in cases]
     for i in range(0, len(cases), 4): jobs.append((f'early plans {i}..', 'plan', dict(cases=cases[i:i + 4]), 1500))
+    rj = [(3, n0, k1, n1) for n0 in ((3, 5, 7, 9, 13) if q else (3, 5, 7, 9, 11, 13, 15)) for (k1, n1) in ((3, n0 - 1), (3, n0 + 1), (1, n0 - 1), (0, n0), (2, n0 + 1))]
+    for i in range(0, len(rj), 5): jobs.append((f'after rejected request {i}..', 'reject', dict(cases=rj[i:i + 5]), 1500))
     return run_property(PID, tier, HARNESS, jobs, JOBFNS,
         level_text='Request histories are enumerated (all sequences up to the stated length over a 6-length alphabet that exceeds the cache, for the complex and the real cache, plus random mixed '
                    'fft/ifft/rfft/irfft histories); the data is symbolic: every request result must be the same term as the result of that single request in a fresh machine '
